@@ -256,6 +256,17 @@ func factsSeq(o *out, res, mgr pkgFiles) {
 		strings.Join(full, ", "), reqCap, streamCap, expire, leanStr(reservedName), leanBool(ackShape), leanBool(reconnectShape),
 		leanBool(earlyReturn), leanBool(filterShape), leanBool(watchShape), leanStrList(order), leanBool(cleanerShape))
 	o.line("def sendAborts : Bool := %s", sendAborts)
+	// updateMeta: does a new entry start with a last-access time?
+	um := bodyNorm(mgr.findFunc("xdsResourceManager", "updateMeta"))
+	metaInit := "false"
+	switch {
+	case strings.Contains(um, "LastAccessTime: atomic.Value{}") && !strings.Contains(um, "LastAccessTime.Store("):
+	case inOrder(um, "} else {", "mt := &xdsresource.ResourceMeta{", "mt.LastAccessTime.Store(updateTime)", "m.meta[rType][name] = mt"):
+		metaInit = "true"
+	default:
+		o.note("seq: updateMeta shape not recognised")
+	}
+	o.line("def metaInitNow : Bool := %s", metaInit)
 }
 
 func min(a, b int) int {
